@@ -104,6 +104,16 @@ CLAIMED.update({
    note="Byte-swapped files are outside the statement. pcap_read_all on a damaged file may answer with an error object.",
    technique="explicit-state BFS over read histories with a cursor model + exhaustive truncation/corruption enumeration"),
 })
+CLAIMED.update({
+ "C21": dict(level="model_checking", design="4.21",
+   text="Files of 16 sizes around the 8 KiB buffer (binary counter pattern with newlines at the buffer boundaries, UTF-8 text with 2-4 byte characters straddling them): per file an explicit-state breadth-first search over call sequences of depth <= 3 from read(f), read(f, n), read_line, read_to_string against a content + cursor model (canonical state = cursor, merged states cross-checked, every transition on a freshly opened handle, a final read(f) must return exactly the rest); pipes: 8 call sequences x every composition of the content into <= 3 chunks from {1, 100, 4096, 4097, 8192, rest} on a FIFO opened with the real open and on stdin of the binary, the feeder writes the next chunk only when the pipe has been drained (FIONREAD == 0), each schedule run twice with identical observations demanded; writes: mode (w, a, x, r, none) x target (missing, existing) x sequences of <= 2 (thorough 3) writes of sizes 0/1/8191/8192/8193 as string / byte array / byte x (handle closed | flush with the handle open): file content = old-content rule of the mode + the bytes written.",
+   note="The chunk schedule is owned by the harness (feeder waits for an empty pipe), so short reads are deterministic. Terminal input and sockets are not covered.",
+   technique="explicit-state BFS over read histories with a cursor model + exhaustive enumeration of pipe chunk schedules and write sequences"),
+ "C22": dict(level="fault_enumeration", design="4.22",
+   text="Fault alphabet (ENOENT, EISDIR at open or at the first read, EEXIST under mode x, ENOSPC via /dev/full at flush or when the 8 KiB buffer spills, ENOTDIR, empty / 10-byte / garbage / half-record pcap content) x 9 openers (open and pcap_open in every mode) x every sequence of <= 2 (thorough 3) follow-up calls appropriate to the handle, each as a script through the real compiler and VM: the script must reach its end with no runtime error or panic, every call that meets the failure must return a value with is_error true and every other call must not; pcap_stream(stdin) with 5 bad inputs and write/flush on the stdout handle with standard output on /dev/full through the binary.",
+   note="EACCES cannot be provoked (the sandbox runs as root). Argument-kind misuse is C11's. The harness tracks the pending byte count of the 8 KiB write buffer to know which call hits ENOSPC.",
+   technique="exhaustive enumeration of fault x call-sequence combinations run through the real VM"),
+})
 NOT_YET = "check not built yet in this round (machinery under construction; see DESIGN.md section 4 for the planned check)"
 
 props = [json.loads(l) for l in open(os.path.join(HERE, "properties.jsonl"))]
